@@ -27,6 +27,8 @@ pub struct Sched {
     pub schedule: Vec<(usize, String)>,
     pub pos: usize,
     pub done: Vec<bool>,
+    /// threads blocked outside a gate (joining others): their schedule entries cannot be honoured now
+    pub paused: Vec<bool>,
     pub running: Option<usize>,
     pub free_run: bool,
     pub desync: bool,
@@ -41,7 +43,7 @@ static CV: Condvar = Condvar::new();
 static TRACKED: Mutex<Option<(usize, usize)>> = Mutex::new(None);
 
 pub fn install(schedule: Vec<(usize, String)>, nthreads: usize) {
-    *SCHED.lock().unwrap() = Some(Sched { schedule, pos: 0, done: vec![false; nthreads + 2], running: None, free_run: false, desync: false, label_mismatches: 0, granted: vec![] });
+    *SCHED.lock().unwrap() = Some(Sched { schedule, pos: 0, done: vec![false; nthreads + 2], paused: vec![false; nthreads + 2], running: None, free_run: false, desync: false, label_mismatches: 0, granted: vec![] });
 }
 pub fn uninstall() -> Option<Sched> {
     SCHED.lock().unwrap().take()
@@ -78,6 +80,9 @@ pub fn turn(what: &str) {
         return;
     }
     if let Some(s) = g.as_mut() {
+        if me < s.paused.len() {
+            s.paused[me] = false;
+        }
         if s.running == Some(me) {
             s.running = None;
             CV.notify_all();
@@ -85,7 +90,7 @@ pub fn turn(what: &str) {
     }
     loop {
         let Some(s) = g.as_mut() else { return };
-        while !s.free_run && s.pos < s.schedule.len() && s.done[s.schedule[s.pos].0] {
+        while !s.free_run && s.pos < s.schedule.len() && (s.done[s.schedule[s.pos].0] || s.paused[s.schedule[s.pos].0]) {
             s.pos += 1; // the model let a finished thread move: cannot be honoured
             s.desync = true;
         }
@@ -107,7 +112,7 @@ pub fn turn(what: &str) {
                 return;
             }
         }
-        let (ng, to) = CV.wait_timeout(g, Duration::from_millis(1500)).unwrap();
+        let (ng, to) = CV.wait_timeout(g, Duration::from_millis(300)).unwrap();
         g = ng;
         if to.timed_out() {
             if let Some(s) = g.as_mut() {
@@ -162,6 +167,21 @@ pub fn pause() {
     if let Some(s) = g.as_mut() {
         if s.running == Some(me) {
             s.running = None;
+        }
+        if me < s.paused.len() {
+            s.paused[me] = true;
+        }
+    }
+    CV.notify_all();
+}
+
+/// The calling thread is back from blocking outside a gate.
+pub fn resume() {
+    let me = tid();
+    let mut g = SCHED.lock().unwrap();
+    if let Some(s) = g.as_mut() {
+        if me < s.paused.len() {
+            s.paused[me] = false;
         }
     }
     CV.notify_all();
